@@ -1,11 +1,23 @@
 import WhVerif.Model.C13
 import WhVerif.Model.C13Header
 import WhVerif.Lemmas.C13
-/-! Helper lemmas for the header part of C13. -/
+import WhVerif.Lemmas.C13Compose
+/-! Helper lemmas for the header / file part of C13 (on the header functions of `Model/C13Bridge.lean`). -/
 namespace WhVerif.Lemmas.C13
-open WhVerif.C13
+open WhVerif WhVerif.C13
 
-theorem removeFirst_sublist (p : HLine → Bool) : ∀ (l : List HLine), (removeFirst p l).Sublist l := by
+theorem removeFirstPhasing_eq (h : List C04.HLine) : C04.removeFirstPhasing h = removeFirst isPhasingLine h := by
+  induction h with
+  | nil => rfl
+  | cons a r ih =>
+    unfold C04.removeFirstPhasing removeFirst isPhasingLine
+    by_cases ha : a.key = "phasing"
+    · simp [ha]
+    · simp only [ha, if_false, decide_false, Bool.false_eq_true]
+      rw [ih]
+      rfl
+
+theorem removeFirst_sublist {α : Type} (p : α → Bool) : ∀ (l : List α), (removeFirst p l).Sublist l := by
   intro l
   induction l with
   | nil => exact List.Sublist.slnil
@@ -16,7 +28,7 @@ theorem removeFirst_sublist (p : HLine → Bool) : ∀ (l : List HLine), (remove
     · exact ih.cons₂ x
 
 /-- what is removed satisfies `p`: filtering by anything that excludes `p` gives the same -/
-theorem filter_removeFirst (p q : HLine → Bool) (hpq : ∀ x, p x = true → q x = false) : ∀ (l : List HLine),
+theorem filter_removeFirst {α : Type} (p q : α → Bool) (hpq : ∀ x, p x = true → q x = false) : ∀ (l : List α),
     (removeFirst p l).filter q = l.filter q := by
   intro l
   induction l with
@@ -28,7 +40,7 @@ theorem filter_removeFirst (p q : HLine → Bool) (hpq : ∀ x, p x = true → q
       rw [List.filter_cons, if_neg (by simp [hpq x hp])]
     · simp only [List.filter_cons, ih]
 
-theorem removeFirst_eq_self_iff (p : HLine → Bool) : ∀ (l : List HLine),
+theorem removeFirst_eq_self_iff {α : Type} (p : α → Bool) : ∀ (l : List α),
     removeFirst p l = l ↔ ∀ x ∈ l, p x = false := by
   intro l
   induction l with
@@ -51,8 +63,8 @@ theorem removeFirst_eq_self_iff (p : HLine → Bool) : ∀ (l : List HLine),
       · intro h; exact ⟨by simpa using hp, h⟩
       · intro h; exact h.2
 
-/-- the number of `p`-lines drops by one (if there is one) -/
-theorem count_removeFirst (p : HLine → Bool) : ∀ (l : List HLine),
+/-- the number of `p`-elements drops by one (if there is one) -/
+theorem count_removeFirst {α : Type} (p : α → Bool) : ∀ (l : List α),
     ((removeFirst p l).filter p).length = (l.filter p).length - 1 := by
   intro l
   induction l with
@@ -65,7 +77,7 @@ theorem count_removeFirst (p : HLine → Bool) : ∀ (l : List HLine),
     · rw [if_neg hp, List.filter_cons, if_neg hp, List.filter_cons, if_neg hp]
       exact ih
 
-theorem removeFirst_eq_filter (p : HLine → Bool) : ∀ (l : List HLine), (l.filter p).length ≤ 1 →
+theorem removeFirst_eq_filter {α : Type} (p : α → Bool) : ∀ (l : List α), (l.filter p).length ≤ 1 →
     removeFirst p l = l.filter (fun x => !p x) := by
   intro l
   induction l with
@@ -94,51 +106,53 @@ theorem removeFirst_eq_filter (p : HLine → Bool) : ∀ (l : List HLine), (l.fi
       rw [List.filter_cons, if_neg hp] at h
       rw [ih h]
 
-theorem phasing_not_keep (l : HLine) (h : isPhasing l = true) : keepLine l = false := by simp [keepLine, h]
-theorem phasing_not_phaseFormat (l : HLine) (h : isPhasing l = true) : isPhaseFormat l = false := by
-  unfold isPhasing at h
-  unfold isPhaseFormat
-  have hk : l.key = "phasing" := by simpa using h
-  rw [hk]
-  rfl
+theorem phasing_not_keep (l : C04.HLine) (h : isPhasingLine l = true) : keepLine l = false := by simp [keepLine, h]
+theorem phasing_not_phaseFormat (l : C04.HLine) (h : isPhasingLine l = true) : isPhaseFormat l = false := by
+  have hk : l.key = "phasing" := by simpa [isPhasingLine] using h
+  simp [isPhaseFormat, hk]
 
-theorem keepLine_eq (l : HLine) : keepLine l = (!isPhasing l && !isPhaseFormat l) := by
+theorem keepLine_eq (l : C04.HLine) : keepLine l = (!isPhasingLine l && !isPhaseFormat l) := by
   simp [keepLine]
 
-/-- the phasing lines of the output of HEAD's `unphase_header`: one fewer -/
-theorem count_phasing_cur (h : List HLine) :
-    ((unphaseHeaderCur h).filter isPhasing).length = (h.filter isPhasing).length - 1 := by
-  unfold unphaseHeaderCur
-  rw [List.filter_filter, ← count_removeFirst isPhasing h]
-  congr 1
-  apply List.filter_congr
-  intro x _
-  cases hp : isPhasing x with
-  | false => simp
-  | true => simp [phasing_not_phaseFormat x hp]
+theorem unphaseHeader_eq (h : List C04.HLine) :
+    unphaseHeader h = (removeFirst isPhasingLine h).filter (fun l => !isPhaseFormat l) := by
+  unfold unphaseHeader removePhaseFormats
+  rw [removeFirstPhasing_eq]
 
-theorem cur_filter_notFormat (h : List HLine) :
-    (unphaseHeaderCur h).filter (fun l => !isPhaseFormat l) = unphaseHeaderCur h := by
-  unfold unphaseHeaderCur
+theorem unphaseHeaderFix_eq (h : List C04.HLine) : unphaseHeaderFix h = h.filter keepLine := by
+  unfold unphaseHeaderFix removePhaseFormats
   rw [List.filter_filter]
   apply List.filter_congr
   intro x _
-  simp
+  rw [keepLine_eq, Bool.and_comm]
+  rfl
+
+/-- the phasing lines of the output of the pre-3f23520 header function: one fewer -/
+theorem count_phasing_cur (h : List C04.HLine) :
+    ((unphaseHeader h).filter isPhasingLine).length = (h.filter isPhasingLine).length - 1 := by
+  rw [unphaseHeader_eq, List.filter_filter, ← count_removeFirst isPhasingLine h]
+  congr 1
+  apply List.filter_congr
+  intro x _
+  cases hp : isPhasingLine x with
+  | false => simp
+  | true => simp [phasing_not_phaseFormat x hp]
 
 /-- a line that is kept stays a member -/
-theorem mem_cur_of_keep (h : List HLine) (l : HLine) (hl : l ∈ h) (hk : keepLine l = true) : l ∈ unphaseHeaderCur h := by
-  unfold unphaseHeaderCur
+theorem mem_cur_of_keep (h : List C04.HLine) (l : C04.HLine) (hl : l ∈ h) (hk : keepLine l = true) : l ∈ unphaseHeader h := by
+  rw [unphaseHeader_eq]
   have hk' := hk
   rw [keepLine_eq] at hk'
   simp only [Bool.and_eq_true, Bool.not_eq_true'] at hk'
   refine List.mem_filter.mpr ⟨?_, by simp [hk'.2]⟩
-  have : l ∈ (removeFirst isPhasing h).filter keepLine := by
-    rw [filter_removeFirst isPhasing keepLine phasing_not_keep]
+  have : l ∈ (removeFirst isPhasingLine h).filter keepLine := by
+    rw [filter_removeFirst isPhasingLine keepLine phasing_not_keep]
     exact List.mem_filter.mpr ⟨hl, hk⟩
   exact (List.mem_filter.mp this).1
 
-theorem mem_fix_of_keep (h : List HLine) (l : HLine) (hl : l ∈ h) (hk : keepLine l = true) : l ∈ unphaseHeaderFix h :=
-  List.mem_filter.mpr ⟨hl, hk⟩
+theorem mem_fix_of_keep (h : List C04.HLine) (l : C04.HLine) (hl : l ∈ h) (hk : keepLine l = true) : l ∈ unphaseHeaderFix h := by
+  rw [unphaseHeaderFix_eq]
+  exact List.mem_filter.mpr ⟨hl, hk⟩
 
 /-- the FORMAT keys of an unphased record are keys of the record that are not phase tags -/
 theorem recordKeys_unphase (r : Record) (k : String) (hk : k ∈ recordKeys (unphaseRecord r)) :
